@@ -532,8 +532,8 @@ func TestVerifC19Similarity(t *testing.T) {
 	}
 	for _, b := range bases {
 		// renamed copy: all locals, labels and the function itself
-		if strings.Contains(b.Src, ") calc(") {
-			continue // its private helper method would have to be renamed too (a callee rename, not part of C19)
+		if _, hasHelpers := progfam.PrivateHelpers[b.ID]; hasHelpers {
+			continue // its private helper would have to be renamed too (a callee rename, not part of C19)
 		}
 		for _, v := range progfam.Cosmetic(b) {
 			if strings.HasPrefix(v.Op, "ALL:") && c05IsRenaming(v.Op) {
